@@ -2,11 +2,11 @@
 from checks import oracles
 from checks.conc_check import run_conc
 from checks.durable_check import replay_execution
-from checks.executor_common import STRICT, c09
+from checks.executor_common import STRICT, c09, c09_decided_but_suspended
 
 
 def run(ctx):
-    run_conc(ctx, invs=STRICT["C09"], oracle_fns=[c09, oracles.c07],
+    run_conc(ctx, invs=STRICT["C09"], oracle_fns=[c09, c09_decided_but_suspended, oracles.c07],
              extra_rule="Oracle: one item per input in order; SUCCEEDED/FAILED items carry the branch's own return value / error "
                         "(ground truth recorded inside the branch body); the policy was decided when the call returned; the reason is "
                         "consistent with items and policy; at most max_concurrency bodies at once; the replayed BatchResult equals the first.")
